@@ -67,8 +67,8 @@ def gen_case(st, prop, index=None, tier='quick'):
         return g_tail(st, index)
     r = st['mode']
     if prop == 'C06':
-        mode = weighted(r, [('doc', 46), ('alphabet', 20), ('deep', 10),
-                            ('corpus', 4), ('sweep', 6), ('repeat', 8), ('wellformed', 6)])
+        mode = weighted(r, [('doc', 42), ('alphabet', 18), ('deep', 10), ('corpus', 4),
+                            ('sweep', 6), ('repeat', 8), ('wellformed', 5), ('cause', 7)])
     else:
         mode = weighted(r, [('recover', 45), ('doc', 28), ('alphabet', 13),
                             ('deep', 5), ('corpus', 4), ('repeat', 5)])
@@ -209,6 +209,35 @@ def g_wellformed(st):
             'form': _form(st), 'skip_envs': [], 'recover': False, 'wellformed': True, 'depth': d.max_depth()}
 
 
+CAUSES = [
+    # (snippet, the one diagnostic this construct is for)
+    ('$a \\item b$', 'AssertionError'), ('\\(\\item\\)', 'AssertionError'), ('\\[x\\item\\]', 'AssertionError'),
+    ('$$\\item$$', 'AssertionError'), ('\\begin{equation}\\item x\\end{equation}', 'AssertionError'),
+    ('\\begin{align*}a\\item\\end{align*}', 'AssertionError'),
+    ('\\begin x ', 'AssertionError'), ('\\begin\\foo ', 'AssertionError'), ('\\begin[a] ', 'AssertionError'),
+    ('$ x', 'EOFError'), ('\\[ x', 'EOFError'), ('\\( x', 'EOFError'), ('$$ x', 'EOFError'),
+    ('\\begin{zz} x', 'EOFError'),
+]
+
+
+def g_cause(st):
+    """A well-formed document of the restricted sub-grammar with exactly ONE
+    construct inserted that a diagnostic is for (an \\item in a math region, a
+    \\begin without a name, an unclosed math region or environment).  If a
+    diagnostic is raised it must be the one for that cause."""
+    r = st['doc']
+    d = docgen.generate(r, restricted=True, profile=('plain', 'flat', 'deep', 'mixed')[r.randrange(4)])
+    toks = [t.text for t in d.toks]
+    snippet, exc = CAUSES[r.randrange(len(CAUSES))]
+    # any token boundary that is not inside or directly after a comment
+    pos = [j for j in range(len(toks) + 1)
+           if (j == len(toks) or d.toks[j].region == '') and not (j > 0 and d.toks[j - 1].tag == 'comment')]
+    j = pos[r.randrange(len(pos))] if pos else len(toks)
+    wire = toks[:j] + [snippet] + toks[j:]
+    return {'mode': 'cause', 'profile': d.profile, 'plan': 'tokens', 'wire': wire, 'faults': [],
+            'form': _form(st), 'skip_envs': [], 'recover': False, 'cause': [snippet, exc], 'depth': d.max_depth()}
+
+
 def g_recover(st, nalts=3):
     """C07(b): restricted sub-grammar, exactly one lost real closer or one
     truncation while a construct is open."""
@@ -236,7 +265,7 @@ def g_recover(st, nalts=3):
             'what': what, 'alts': alts, 'depth': d.max_depth()}
 
 
-GENERATORS = {'doc': g_doc, 'deep': g_deep, 'repeat': g_repeat, 'wellformed': g_wellformed, 'alphabet': g_alphabet,
+GENERATORS = {'doc': g_doc, 'deep': g_deep, 'repeat': g_repeat, 'wellformed': g_wellformed, 'cause': g_cause, 'alphabet': g_alphabet,
               'corpus': g_corpus, 'sweep': g_sweep, 'recover': g_recover}
 
 
@@ -564,6 +593,11 @@ def execute_one(case, props=('C06', 'C07')):
                          'detail': 'tolerance=%d raised %s (%s) on a fault-free document of the restricted grammar, '
                                    'which contains nothing this diagnostic could be about' % (t, o.exc, o.msg),
                          'tolerance': t}
+                elif case.get('cause') and not applied and o.exc != case['cause'][1]:
+                    v = {'class': 'wrong-diagnostic-for-cause:%s' % o.exc,
+                         'detail': 'tolerance=%d raised %s (%s); the only malformed construct of the document is %r, '
+                                   'which %s is for' % (t, o.exc, o.msg, case['cause'][0], case['cause'][1]),
+                         'tolerance': t}
                 elif not cause_fits(o.exc, D):
                     v = {'class': 'wrong-diagnostic:%s' % o.exc,
                          'detail': 'tolerance=%d raised %s (%s) but the input has no construct '
@@ -646,7 +680,7 @@ def execute_one(case, props=('C06', 'C07')):
                 count('c07.c.side-condition-skip')
         verdicts['C07'] = v
 
-    nontrivial = bool(applied) or case['mode'] in ('alphabet', 'repeat', 'tail', 'wellformed')
+    nontrivial = bool(applied) or case['mode'] in ('alphabet', 'repeat', 'tail', 'wellformed', 'cause')
     return {'verdicts': verdicts, 'log': log, 'digest': digest(log), 'counters': counters,
             'ticks': ticks, 'key': digest([D, case.get('skip_envs', [])]),
             'nontrivial': nontrivial, 'D': D, 'extra_summary': extra_summary, 'buckets': buckets,
@@ -674,6 +708,18 @@ def minimize(case, fails, slow=False):
             break
     if cur.get('skip_envs') and fails(dict(cur, skip_envs=[])):
         cur['skip_envs'] = []
+    if cur.get('cause') or cur.get('wellformed'):
+        # keep the inserted construct intact and the rest a token sequence of the
+        # generator: only whole chunks are removed (a shrunk snippet could turn
+        # into a different, legitimate cause)
+        snippet = cur['cause'][0] if cur.get('cause') else None
+
+        def test(w):
+            if snippet is not None and snippet not in w:
+                return False
+            return fails(dict(cur, wire=w))
+        cur['wire'] = ddmin_list(cur['wire'], test)
+        return cur
     if cur.get('recover'):
         # Structural shrinking only: remove whole constructs (a leaf token or an
         # opener..closer unit of the generator's syntax tree) that do not
